@@ -20,6 +20,8 @@ package main
 //            delivers a side branch that forks off below a checkpoint (light or heavy, as a reply or pushed), both engines
 //   takeover  past the last checkpoint / without checkpoints / checkpoints disabled: the sync peer sends a forbidden or a
 //            checkpoint-contradicting header and is dropped; an honest peer takes over and must be synced from (last clause of C07)
+//   forb-orphan  the forbidden header arrives while its parent is unknown: a batch with a gap in front of it, a batch that starts
+//            beyond the tip with it, a foreign-branch push; followed by its children; both engines
 //   random   seeded mixtures of the above ingredients
 
 import (
@@ -477,6 +479,43 @@ func runC07(c *Ctx) error {
 					sc := &Scenario{Eng: "d", Dis: v.dis, Cps: v.cps, U: uu, Nodes: nodes, Cmds: cmds}
 					if err := g.do(sc, "takeover"); err != nil {
 						return err
+					}
+				}
+			}
+		}
+	}
+
+	// ---- forb-orphan: the forbidden header's parent is unknown when it arrives ----
+	for _, eng := range engines {
+		for a := 0; a <= 1; a++ {
+			for k := 2; k <= 4; k++ {
+				for j := 2; j <= k; j++ { // the forbidden header is bad[j-1]; its parent bad[j-2] is never delivered
+					u, pre, good, bad := forkUniverse(a, 3, k, tsOld)
+					u.Forbidden = []int{bad[j-1]}
+					gap := catInts(pre, bad[:j-2], bad[j-1:]) // the chain as the peer lists it: bad[j-2] left out
+					beyond := bad[j-1:]                        // a batch that starts with the forbidden header itself
+					for _, cp := range []int{2000, 1} {
+						sc := &Scenario{Eng: eng, U: u, Nodes: []*nodeSpec{{P: 1, Cap: cp, Chain: gap}}, Cmds: []string{"C1", "R40"}}
+						if err := g.do(sc, "forb-orphan"); err != nil {
+							return err
+						}
+					}
+					sc := &Scenario{Eng: eng, U: u, Init: pre, Nodes: []*nodeSpec{{P: 1, Cap: 2000, Chain: beyond}}, Cmds: []string{"C1", "R40"}}
+					if err := g.do(sc, "forb-orphan"); err != nil {
+						return err
+					}
+					// pushed by a peer that is not asked (default engine: behind an honest sync peer), checkpoint ahead or not
+					for _, cps := range [][]cpSpec{nil, {{a + 2, good[1]}}} {
+						nodes := []*nodeSpec{{P: 1, Cap: 2000, Chain: pre, Reserve: beyond}}
+						cmds := []string{"C1", "R20", fmt.Sprintf("A1.%d.h", len(beyond)), "R20"}
+						if eng == "d" {
+							nodes = []*nodeSpec{{P: 2, Cap: 2000, Chain: catInts(pre, good)}, {P: 1, Cap: 2000, Chain: pre, Reserve: beyond}}
+							cmds = []string{"C2", "R40", "C1", fmt.Sprintf("A1.%d.h", len(beyond)), "R20"}
+						}
+						sc := &Scenario{Eng: eng, Cps: cps, U: u, Nodes: nodes, Cmds: cmds}
+						if err := g.do(sc, "forb-orphan"); err != nil {
+							return err
+						}
 					}
 				}
 			}
